@@ -72,16 +72,23 @@ Lemma skipWhitespace_frame l : frame l (skipWhitespace l).
 Proof. apply skipWS_frame. Qed.
 
 (* ---------- what a finished scan looks like ---------- *)
+(* an ERROR token cites a line of the input and quotes it (trimmed) *)
+Definition err_located (s : bytes) (t : token) : Prop :=
+  1 <= eline t <= S (nl s) /\ ectx t = nth_error (map trim (split_nl [] s)) (Nat.pred (eline t)).
+
 Definition Final (l : lx) : Prop :=
   fl l = FOk /\ exists t o, out l = t :: o /\
-   ((ty t = ERROR /\ exists e, Tiled (inp l) e (rev o)) \/
+   ((ty t = ERROR /\ (exists e, Tiled (inp l) e (rev o)) /\ err_located (inp l) t) \/
     (ty t = EOF /\ exists e, Tiled (inp l) e (rev (out l)))).
 
 Lemma err_final k l d e g : Inv l d e g -> Final (error k l) /\ frame l (error k l).
 Proof.
   intros HI. destruct (error_ok k l _ _ _ HI) as (F & (t & o & Ho & Ht) & (t' & Ho')).
   split; [|apply error_frame]. split; [exact F|]. exists t, o. split; [exact Ho|]. left. split; [exact Ht|].
-  rewrite Ho in Ho'. inversion Ho'; subst. destruct HI. exists e. unfold error. cbn [inp]. assumption.
+  rewrite Ho in Ho'. inversion Ho'; subst. split.
+  - destruct HI. exists e. unfold error. cbn [inp]. assumption.
+  - unfold error in Ho. cbn [out] in Ho. inversion Ho; subst t'. unfold err_located. cbn [eline ectx error inp]. unfold getLine.
+    destruct HI as [Hi Hs Hsl Hl _ _ _ _]. split; [|reflexivity]. rewrite Hl, Hi, !nl_app, nl_rev. lia.
 Qed.
 
 (* ---------- per-state preconditions ---------- *)
@@ -974,7 +981,7 @@ Proof. constructor; cbn; auto; constructor. Qed.
 Theorem lex_tiles s :
   fst (lex s) = FOk /\
   exists front t, snd (lex s) = front ++ [t] /\
-    ((ty t = ERROR /\ exists e, Tiled s e front) \/ (ty t = EOF /\ exists e, Tiled s e (front ++ [t]))).
+    ((ty t = ERROR /\ (exists e, Tiled s e front) /\ err_located s t) \/ (ty t = EOF /\ exists e, Tiled s e (front ++ [t]))).
 Proof.
   unfold lex. cbn [fst snd].
   destruct (run_ok (6 * length s + 8) SStart (init s)) as [[Fl (t & o & Ho & H)] Hi].
